@@ -243,6 +243,10 @@ package tcell
 
 //@ pred contentChanged(c0 cell, mainc rune, combc []rune) = c0.width > 0 &&
 //@        (mainc != c0.currMain || len(combc) != len(c0.currComb) || (len(combc) > 0 && !seqeq(combc, c0.currComb)))
+// the columns to the right of (x,y) that a rune of width n at (x,y) covers (the cell itself is not among them: whether
+// it needs repainting is decided by comparing it with what was last drawn, so a -> b -> a between two Shows, or Clear
+// followed by the same content, leaves it clean)
+//@ pred inCovered(cb *CellBuffer, x int, y int, k int, n int) = y*cb.w+x < k && k < y*cb.w+x+n && k < y*cb.w+cb.w
 //@ pred inWide(cb *CellBuffer, x int, y int, k int, n int) = y*cb.w+x <= k && k < y*cb.w+x+n && k < y*cb.w+cb.w
 
 //@ func (*CellBuffer).SetContent
@@ -262,19 +266,18 @@ package tcell
 //@   ensures [width] inRange(cb, x, y) ==> cb.cells[y*cb.w+x].width ==
 //@              (old(cb.cells[y*cb.w+x].currMain) != mainc ? cellW(mainc) : old(cb.cells[y*cb.w+x].width))
 //@   ensures [keeps] inRange(cb, x, y) ==> cb.cells[y*cb.w+x].lock == old(cb.cells[y*cb.w+x].lock) && sameLastTail(cb.cells[y*cb.w+x], old(cb.cells[y*cb.w+x]))
-//@   ensures [selfdirty] inRange(cb, x, y) ==> cb.cells[y*cb.w+x].lastMain ==
-//@              (contentChanged(old(cb.cells[y*cb.w+x]), mainc, combc) ? 0 : old(cb.cells[y*cb.w+x].lastMain))
+//@   ensures [selfdirty] inRange(cb, x, y) ==> cb.cells[y*cb.w+x].lastMain == old(cb.cells[y*cb.w+x].lastMain)
 //@   ensures [wide] inRange(cb, x, y) && contentChanged(old(cb.cells[y*cb.w+x]), mainc, combc) ==>
-//@              forall k int :: 0 <= k && k < len(cb.cells) && k != y*cb.w+x && inWide(cb, x, y, k, old(cb.cells[y*cb.w+x].width)) ==>
+//@              forall k int :: 0 <= k && k < len(cb.cells) && inCovered(cb, x, y, k, old(cb.cells[y*cb.w+x].width)) ==>
 //@                 cb.cells[k].lastMain == 0 && sameButLastMain(cb.cells[k], old(cb.cells[k]))
 //@   ensures [narrow] inRange(cb, x, y) && !contentChanged(old(cb.cells[y*cb.w+x]), mainc, combc) ==>
 //@              forall k int :: 0 <= k && k < len(cb.cells) && k != y*cb.w+x ==> cb.cells[k] == old(cb.cells[k])
 //@   ensures [others] inRange(cb, x, y) && contentChanged(old(cb.cells[y*cb.w+x]), mainc, combc) ==>
-//@              forall k int :: 0 <= k && k < len(cb.cells) && k != y*cb.w+x && !inWide(cb, x, y, k, old(cb.cells[y*cb.w+x].width)) ==> cb.cells[k] == old(cb.cells[k])
-//@   loop 1: invariant [idx] 0 <= i && i <= old(cb.cells[y*cb.w+x].width) && inRange(cb, x, y) && shapeKept(cb, old(cb.w), old(cb.h), old(cb.cells)) && contentChanged(old(cb.cells[y*cb.w+x]), mainc, combc)
-//@           invariant [done] forall k int :: 0 <= k && k < len(cb.cells) && inWide(cb, x, y, k, i) ==>
+//@              forall k int :: 0 <= k && k < len(cb.cells) && k != y*cb.w+x && !inCovered(cb, x, y, k, old(cb.cells[y*cb.w+x].width)) ==> cb.cells[k] == old(cb.cells[k])
+//@   loop 1: invariant [idx] 1 <= i && i <= old(cb.cells[y*cb.w+x].width) && inRange(cb, x, y) && shapeKept(cb, old(cb.w), old(cb.h), old(cb.cells)) && contentChanged(old(cb.cells[y*cb.w+x]), mainc, combc)
+//@           invariant [done] forall k int :: 0 <= k && k < len(cb.cells) && inCovered(cb, x, y, k, i) ==>
 //@                 cb.cells[k].lastMain == 0 && sameButLastMain(cb.cells[k], old(cb.cells[k]))
-//@           invariant [rest] forall k int :: 0 <= k && k < len(cb.cells) && !inWide(cb, x, y, k, i) ==> cb.cells[k] == old(cb.cells[k])
+//@           invariant [rest] forall k int :: 0 <= k && k < len(cb.cells) && !inCovered(cb, x, y, k, i) ==> cb.cells[k] == old(cb.cells[k])
 //@           decreases old(cb.cells[y*cb.w+x].width) - i
 //@   ensures [width-inv] wi0 ==> cbwidthinv(cb)
 //@   ensures [widths] wd0 ==> cbwidths(cb)
